@@ -95,6 +95,8 @@ class Query(VC):
         ctx.assume(znot(status_is(ctx, focus, "Pending")))
         o, r = run_entry(I, ctx, fn(I, "query_proposal", self.crate), [make_deps(False), env, pid], st)
         ob.outcome = o
+        ob.info["replay"] = dict(contract=self.crate, entry="query", crate=self.crate, env=env, info=None, msg=EnumV("QueryMsg", "Proposal", [pid], ["proposal_id"]),
+                                 msg_ty="msg::QueryMsg", pre_storage=st, post_storage=st, outcome=o, result=r if o == "Ok" else None, result_ty="cw3::ProposalResponse", querier=None)
         if o != "Ok": return
         cur = I.force(ctx, kernel(I, ctx, "current_status", focus, blk))
         got = I.force(ctx, r.get("status"))
